@@ -426,3 +426,83 @@ func VerifC18CallIDs() {
 	vassert(mdl.calls == wantCalls, "a call to a return-directly tool ends the run without another model call, whatever its id")
 	vassert(out.Content == want, "the answer is the result of the first return-directly call (or the final assistant message)")
 }
+
+// A MessageModifier that edits the slice it is given in place (replaces the first message by a prefixed copy, drops
+// tool messages with empty content by compacting the slice): every model call sees modifier(history so far) - the
+// edits of one round never leak into the history the next round starts from.
+func VerifC18Modifier() {
+	ctx := context.Background()
+	vcfg("fifo", 1)
+	vcfg("selectfirst", 1)
+	i0 := 0
+	script := []*schema.Message{
+		{Role: schema.Assistant, Content: "call1", ToolCalls: []schema.ToolCall{{Index: &i0, ID: "c1", Function: schema.FunctionCall{Name: "t0", Arguments: "x"}}}},
+		{Role: schema.Assistant, Content: "call2", ToolCalls: []schema.ToolCall{{Index: &i0, ID: "c2", Function: schema.FunctionCall{Name: "t0", Arguments: "y"}}}},
+		{Role: schema.Assistant, Content: "done"},
+	}
+	mdl := &c18Model{script: script, chunking: []int{0, 0, 0}}
+	style := vchoose("style", 2)
+	modifier := func(ctx context.Context, in []*schema.Message) []*schema.Message {
+		if style == 0 { // persona prefix written into the first slot
+			in[0] = &schema.Message{Role: in[0].Role, Content: "P:" + in[0].Content}
+			return in
+		}
+		out := in[:0] // filter idiom: keep everything but assistant messages, compacting in place
+		for _, m := range in {
+			if m.Role != schema.Assistant {
+				out = append(out, m)
+			}
+		}
+		return out
+	}
+	var runs []string
+	ag, err := NewAgent(ctx, &AgentConfig{ToolCallingModel: mdl, MaxStep: 10, MessageModifier: modifier,
+		ToolsConfig: compose.ToolsNodeConfig{Tools: []tool.BaseTool{&c18Tool{"t0", &runs}}}})
+	vassert(err == nil, "agent is created")
+	var out *schema.Message
+	var rerr error
+	if vchoose("stream", 2) == 1 {
+		sr, e := ag.Stream(ctx, []*schema.Message{schema.UserMessage("q")})
+		rerr = e
+		if e == nil {
+			var chunks []*schema.Message
+			for i := 0; i < 8; i++ {
+				c, e := sr.Recv()
+				if e != nil {
+					break
+				}
+				chunks = append(chunks, c)
+			}
+			sr.Close()
+			out, rerr = schema.ConcatMessages(chunks)
+		}
+	} else {
+		out, rerr = ag.Generate(ctx, []*schema.Message{schema.UserMessage("q")})
+	}
+	vassert(rerr == nil && out != nil && out.Content == "done", "the agent answers")
+	vassert(len(mdl.seen) == 3, "the model is asked three times")
+	if len(mdl.seen) != 3 {
+		return
+	}
+	r1, r2 := c18Out("t0", "x"), c18Out("t0", "y")
+	var want [][]c18Msg
+	if style == 0 {
+		u := c18Msg{role: schema.User, content: "P:q"}
+		a1 := c18Snap(script[0])
+		a2 := c18Snap(script[1])
+		want = [][]c18Msg{{u}, {u, a1, {role: schema.Tool, content: r1, tcID: "c1"}},
+			{u, a1, {role: schema.Tool, content: r1, tcID: "c1"}, a2, {role: schema.Tool, content: r2, tcID: "c2"}}}
+	} else {
+		u := c18Msg{role: schema.User, content: "q"}
+		want = [][]c18Msg{{u}, {u, {role: schema.Tool, content: r1, tcID: "c1"}},
+			{u, {role: schema.Tool, content: r1, tcID: "c1"}, {role: schema.Tool, content: r2, tcID: "c2"}}}
+	}
+	for k := range want {
+		vassert(len(mdl.seen[k]) == len(want[k]), "every model call sees the modifier applied to the history so far, once (length)")
+		for i := range want[k] {
+			if i < len(mdl.seen[k]) {
+				vassert(c18Eq(mdl.seen[k][i], want[k][i]), "every model call sees the modifier applied to the history so far, once (content)")
+			}
+		}
+	}
+}
